@@ -222,7 +222,10 @@ pub fn check_text(text: &str, res: &mut CaseResult) {
         Ok(Ok(x)) => x,
     };
     res.outcome.push(("C06", hash64(&("ok", tests.len(), reference.unterminated.is_some(), reference.unspecified.is_some()))));
-    if reference.unspecified.is_some() {
+    if reference.unspecified == Some(ORPHANS) {
+        // lines before the `$` line: accepted documents are compared with the reference, which drops those lines
+        res.counters.push(("documents_with_lines_before_the_command_compared", 1));
+    } else if reference.unspecified.is_some() {
         res.counters.push(("unspecified_documents", 1));
         return;
     }
@@ -343,7 +346,7 @@ impl Engine for VcMd {
     }
     fn assumptions(&self, _p: &str) -> Vec<String> {
         vec![
-            "reference tokenizer written from the documentation: fences open at column 0 with >= 3 backticks and a backtick-free info string and close at a line of at least as many backticks; constructs the documentation does not define (indented or ~~~ fences, a line starting with a fence-length backtick run inside a block, non-comment lines before `$`, two exit codes, a second front-matter) only have to not crash and are counted as unspecified".into(),
+            "reference tokenizer written from the documentation: fences open at column 0 with >= 3 backticks and a backtick-free info string and close at a line of at least as many backticks; constructs the documentation does not define (indented or ~~~ fences, a line starting with a fence-length backtick run inside a block, two exit codes, a second front-matter) only have to not crash and are counted as unspecified; expectation or exit code lines before the `$` line of a block belong to no test: the document is rejected or they are dropped".into(),
             "Err is always an acceptable result (the property says so); documents rejected although well-formed are counted in the evidence".into(),
             "titles are compared only when the nearest preceding prose is unambiguously a heading/paragraph".into(),
         ]
